@@ -328,6 +328,14 @@ def outcomeOf (s : Store) (T : Nat) : Outcome :=
   else if !rbs.isEmpty then (if locked then .mixed "rolled back with a lock left" else .rolledBack)
   else if locked then .pending else .none
 
+/-- C03 `toldCheck`: a commit ts at which data of `T` is in the store (the outcome's, or — for a mixed outcome — the first
+    data record's), none when no key carries a data record of `T` -/
+def committedAtOf (s : Store) (T : Nat) : Option Nat :=
+  match outcomeOf s T with
+  | .committed c => some c
+  | .mixed _ => ((s.kv.flatMap fun p => p.2.writes.filter fun w => w.startTS == T && w.vt != .rollback).head?).map (·.commitTS)
+  | _ => none
+
 /-- value visible at `ts` on key `k` (committed data only) -/
 def visible (s : Store) (k : Bytes) (ts : Nat) : Option Bytes :=
   (firstVisible (getEntry s.kv k).writes ts).map (·.value)
